@@ -307,7 +307,7 @@ def exp_zero_seq(base):
         yield value
 
 
-def gauss_newton(op, x, rhs, niter, zero_seq=exp_zero_seq(2.0),
+def gauss_newton(op, x, rhs, niter, zero_seq=None,
                  callback=None):
     """Optimized implementation of a Gauss-Newton method.
 
@@ -350,6 +350,11 @@ def gauss_newton(op, x, rhs, niter, zero_seq=exp_zero_seq(2.0),
     if x not in op.domain:
         raise TypeError('`x` {!r} is not in the domain of `op` {!r}'
                         ''.format(x, op.domain))
+
+    if zero_seq is None:
+        # A fresh sequence per call (a generator as default argument is
+        # created once at import and shared by all calls)
+        zero_seq = exp_zero_seq(2.0)
 
     x0 = x.copy()
     id_op = IdentityOperator(op.domain)
